@@ -882,7 +882,6 @@ impl<S: BaseFloat> SquareMatrix for Matrix4<S> {
         if det == S::zero() {
             None
         } else {
-            let inv_det = S::one() / det;
             let t = self.transpose();
             let cf = |i, j| {
                 let mat = match i {
@@ -905,7 +904,7 @@ impl<S: BaseFloat> SquareMatrix for Matrix4<S> {
                 } else {
                     S::one()
                 };
-                mat.determinant() * sign * inv_det
+                mat.determinant() * sign / det
             };
 
             #[cfg_attr(rustfmt, rustfmt_skip)]
